@@ -428,39 +428,66 @@ fn int_type(input: &[u8]) -> LexResult<'_, IntType> {
 
 /// Parse a decimal literal
 fn literal_decimal_int(input: &[u8]) -> LexResult<'_, Token> {
+    let start_input = input;
     let (input, value) = digits(input)?;
     let (input, int_type_opt) = opt(int_type)(input)?;
     let token = match int_type_opt {
         None => Token::LiteralInt(value),
         Some(IntType::Unsigned32) => Token::LiteralIntUnsigned32(value),
         Some(IntType::Unsigned64) => Token::LiteralIntUnsigned64(value),
-        Some(IntType::Signed64) => Token::LiteralIntSigned64(value as i64),
+        Some(IntType::Signed64) => match i64::try_from(value) {
+            Ok(value) => Token::LiteralIntSigned64(value),
+            Err(_) => {
+                return Err(LexErrorContext(
+                    start_input,
+                    LexerErrorReason::IntegerLiteralTooLarge,
+                ));
+            }
+        },
     };
     Ok((input, token))
 }
 
 /// Parse a hexadecimal literal
 fn literal_hex_int(input: &[u8]) -> LexResult<'_, Token> {
+    let start_input = input;
     let (input, value) = digits_hex(input)?;
     let (input, int_type_opt) = opt(int_type)(input)?;
     let token = match int_type_opt {
         None => Token::LiteralInt(value),
         Some(IntType::Unsigned32) => Token::LiteralIntUnsigned32(value),
         Some(IntType::Unsigned64) => Token::LiteralIntUnsigned64(value),
-        Some(IntType::Signed64) => Token::LiteralIntSigned64(value as i64),
+        Some(IntType::Signed64) => match i64::try_from(value) {
+            Ok(value) => Token::LiteralIntSigned64(value),
+            Err(_) => {
+                return Err(LexErrorContext(
+                    start_input,
+                    LexerErrorReason::IntegerLiteralTooLarge,
+                ));
+            }
+        },
     };
     Ok((input, token))
 }
 
 /// Parse an octal literal
 fn literal_octal_int(input: &[u8]) -> LexResult<'_, Token> {
+    let start_input = input;
     let (input, value) = digits_octal(input)?;
     let (input, int_type_opt) = opt(int_type)(input)?;
     let token = match int_type_opt {
         None => Token::LiteralInt(value),
         Some(IntType::Unsigned32) => Token::LiteralIntUnsigned32(value),
         Some(IntType::Unsigned64) => Token::LiteralIntUnsigned64(value),
-        Some(IntType::Signed64) => Token::LiteralIntSigned64(value as i64),
+        Some(IntType::Signed64) => match i64::try_from(value) {
+            Ok(value) => Token::LiteralIntSigned64(value),
+            Err(_) => {
+                return Err(LexErrorContext(
+                    start_input,
+                    LexerErrorReason::IntegerLiteralTooLarge,
+                ));
+            }
+        },
     };
     Ok((input, token))
 }
